@@ -30,7 +30,7 @@ def is_emergency(msg: str) -> bool:
 
     emergency_state = common.bin2int(mb[8:11])
 
-    if subtype == 1 and emergency_state == 1:
+    if subtype == 1 and emergency_state != 0:
         return True
     else:
         return False
@@ -52,6 +52,10 @@ def emergency_state(msg: str) -> int:
     :param msg: 28 bytes hexadecimal message string
     :return: emergency state
     """
+    if common.typecode(msg) != 28:
+        raise RuntimeError(
+            "%s: Not an airborne status message, expecting TC=28" % msg
+        )
 
     mb = common.hex2bin(msg)[32:]
     subtype = common.bin2int(mb[5:8])
